@@ -48,6 +48,26 @@ func main() {
 			os.Exit(2)
 		}
 		os.Exit(gocv.Report(opt, rep, notCovered(vd, *prop)))
+	case "replay":
+		// gocv replay --property Cxx --obligation NAME: run the registered harness for that obligation on /repo now
+		fs := flag.NewFlagSet("replay", flag.ExitOnError)
+		prop := fs.String("property", "", "property id")
+		obl := fs.String("obligation", "", "obligation name")
+		repo := fs.String("repo", "/repo", "repository")
+		fs.Parse(os.Args[2:])
+		vd, _ := os.Getwd()
+		opt := &gocv.Options{RepoDir: *repo, VerifDir: vd, Property: *prop, NoEvidence: true}
+		input, log, err := gocv.ReplayNow(opt, *obl)
+		if err != nil {
+			fmt.Println("error:", err)
+			os.Exit(2)
+		}
+		fmt.Println(log)
+		if input != "" {
+			fmt.Println("FAILING INPUT:", input)
+			os.Exit(1)
+		}
+		fmt.Println("no failing input found")
 	default:
 		fmt.Fprintln(os.Stderr, "unknown command", os.Args[1])
 		os.Exit(2)
